@@ -264,6 +264,13 @@ def stl_kernel(rng, isa, vocab, curated=False):
             lm["disp"] = None  # a symbolic displacement is written without a numeric one
         if lm["index"] and any(o.get("noindex") for o in lf["ops"]):
             lf = [f for f in loads if not any(o.get("noindex") for o in f["ops"])][0]
+        regops = [o for o in lf["ops"] if o["kind"] == "reg"]
+        if (not curated and how in ("exact", "viacopy") and len(regops) == 1 and regops[0]["cls"] == "g" and regops[0]["role"] == "d"
+                and not lm["index"] and rng.random() < 0.25):
+            # pointer chasing: the load overwrites its own address register ('mov (%rbx), %rbx', 'ldr x0, [x0]')
+            kernel.append(inst(rng, isa, lf, pool_data, mem=lm, regs=[lm["base"]]))
+            tags.add("load_overwrites_its_address_register")
+            break
         kernel.append(curated_mem(rng, isa, lf, pool_data, lm) if curated else inst(rng, isa, lf, pool_data, mem=lm))
     return kernel, tags, near
 
